@@ -23,6 +23,7 @@ var verifC08Cmds = []string{
 	"NOOP\r\n",
 	"FROB\r\n",
 	"QUIT\r\n",
+	"EHLO other.example\r\n",
 }
 
 func verifCheckSessions(be *vbackend, tag string) {
@@ -52,6 +53,15 @@ func verif_C08_run() {
 	ns := verifBound(2, 2)
 	be := &vbackend{}
 	panicInMail := false
+	// the backend may refuse to create a session from some call on
+	failFrom := nondetInt(1, 4) // NewSession fails from this call on (4 = never, at most 3 greetings fit)
+	nsCalls := 0
+	be.onNewSession = func(c *Conn) {
+		nsCalls++
+		if nsCalls >= failFrom {
+			be.newSessionErr = verifErrBackend()
+		}
+	}
 	s, lg := verifServer(be)
 	s.MaxLineLength = 40
 	in := []byte{}
